@@ -155,8 +155,23 @@ def d_c10_duplabels():
     return _c10_variant(make)
 
 
+def d_c08_negscores():
+    import json
+    sys.path.insert(0, os.path.dirname(os.path.dirname(os.path.abspath(__file__))))
+    d = json.load(open(os.path.join(os.path.dirname(os.path.abspath(__file__)), 'c08_spike_scene.json')))
+    df = pd.DataFrame({'ceilo': [str(r[0]) for r in d['rows']], 'dt': [float(r[1]) for r in d['rows']],
+                       'height': [float('nan') if r[2] is None else float(r[2]) for r in d['rows']], 'type': [int(r[3]) for r in d['rows']]})
+    df['ceilo'] = df['ceilo'].astype(pd.StringDtype())
+    with warnings.catch_warnings():
+        warnings.simplefilter('ignore')
+        try:
+            return 'ok ' + ampycloud.run(df, prms=d['prms']).metar_msg()
+        except Exception as e:
+            return f'DEFECT: {type(e).__name__}: {str(e)[:80]}'
+
+
 if __name__ == '__main__':
-    for f in (d_c14, d_c10, d_c05, d_c08_bundle, d_c08_empty, d_c06_layers, d_c06_groups, d_c20_emptyplot, d_c12_emptyyaml, d_c10_namedindex, d_c10_duplabels):
+    for f in (d_c14, d_c10, d_c05, d_c08_bundle, d_c08_empty, d_c06_layers, d_c06_groups, d_c20_emptyplot, d_c12_emptyyaml, d_c10_namedindex, d_c10_duplabels, d_c08_negscores):
         try:
             print(f.__name__, '->', f())
         except Exception as e:
